@@ -371,6 +371,24 @@ class Gen(object):
         path, vals = rng.pick(OPTION_CHOICES)
         return {'op': 'set_option', 'path': path, 'value': rng.pick(vals)}
 
+    def op_quality(self):
+        """water-quality attributes in one go: reaction orders that differ from each other and coefficients on existing tanks and pipes"""
+        rng = self.rng
+        ops = [{'op': 'set_options', 'items': [['reaction.bulk_order', rng.pick([1.0, 2.0, 0.0])], ['reaction.tank_order', rng.pick([1.0, 2.0, 0.0])],
+                                                ['reaction.wall_order', rng.pick([1.0, 0.0])], ['quality.parameter', rng.pick(['CHEMICAL', 'CHEMICAL', 'AGE', 'NONE'])]]}]
+        tanks = [k for k, n in self.m.nodes.items() if n['type'] == 'T']
+        pipes = [k for k, l in self.m.links.items() if l['type'] == 'pipe']
+        for t in tanks[:2]:
+            if rng.chance(0.7):
+                ops.append({'op': 'set_attr', 'kind': 'node', 'name': t, 'attr': 'tank_bulk', 'value': rng.pick([-1e-6, -2.5e-6, -1.234567e-5])})
+        for pnm in pipes[:3]:
+            if rng.chance(0.5):
+                ops.append({'op': 'set_attr', 'kind': 'link', 'name': pnm, 'attr': rng.pick(['bulk_coeff', 'wall_coeff']), 'value': rng.pick([-1e-6, -3e-7, -1.234567e-6])})
+        for n in list(self.m.nodes)[:3]:
+            if rng.chance(0.4):
+                ops.append({'op': 'set_attr', 'kind': 'node', 'name': n, 'attr': 'initial_quality', 'value': rng.pick([0.5e-3, 1e-3, 1.234567e-3])})
+        return ops
+
     def op_restart(self):
         rng = self.rng
         how = rng.wpick(self.p['restarts'])
@@ -395,7 +413,7 @@ def gen_history(rng, profile):
         'add_reservoir': g.op_add_reservoir, 'add_pipe': g.op_add_pipe, 'add_pump': g.op_add_pump, 'add_valve': g.op_add_valve,
         'add_source': g.op_add_source, 'add_demand': g.op_add_demand, 'add_control': g.op_add_control, 'remove': g.op_remove,
         'remove_free_node': g.op_remove_free_node, 'set_end': g.op_set_end, 'set_ref': g.op_set_ref, 'set_attr': g.op_set_attr,
-        'leak': g.op_leak, 'set_option': g.op_set_option, 'restart': g.op_restart,
+        'leak': g.op_leak, 'set_option': g.op_set_option, 'restart': g.op_restart, 'quality': g.op_quality,
     }
     pairs = [(k, w[k]) for k in sorted(w) if w[k] > 0]
     # a small seed population so that early operations have something to refer to
@@ -411,5 +429,6 @@ def gen_history(rng, profile):
         op = table[k]()
         if op is None:
             continue
-        g.emit(op)
+        for o in (op if isinstance(op, list) else [op]):
+            g.emit(o)
     return g.ops
